@@ -249,13 +249,17 @@ def render_module(mod):
     out = []
     pn = 9000
     for d in mod:
+        if d[0] == "ialias":
+            continue
         pub = d[1] == 1
         if d[0] == "istruct":
             out.append("Wir nennen die %sKombination aus" % ("öffentliche " if pub else ""))
             for f in d[4]:
                 g = gender(mod, f[2])
                 out.append("\t%s %s%s %s mit Standardwert %s," % ("der" if g == "die" else "dem", "öffentlichen " if f[0] == 1 else "", ty_name(f[2]), ident(f[1]), dflt_text(f[2])))
-            out.append('%s %s, und erstellen sie so:\n\t"neu_%d"\n' % (ART_AKK[d[3]], ident(d[2]), d[2]))
+            al = ['"neu_%d"' % d[2]] + ['"%s"' % " ".join(["rufe_%d" % a[1]] + ["<%s>" % ident(f) for f in a[3]])
+                                            for a in mod if a[0] == "ialias" and a[2] == d[2]]
+            out.append('%s %s, und erstellen sie so:\n\t%s\n' % (ART_AKK[d[3]], ident(d[2]), " oder\n\t".join(al)))
         elif d[0] == "ivar":
             g = gender(mod, d[3])
             out.append("%s %s%s %s ist %s." % (ART[g], {"der": "öffentliche ", "die": "öffentliche ", "das": "öffentliche "}[g] if pub else "", ty_name(d[3]), ident(d[2]), dflt_text(d[3])))
@@ -357,6 +361,15 @@ class Spec:
         for d in mod:
             if d[0] == "istruct" and d[2] not in self.structs:
                 self.structs[d[2]] = (d[3], d[4])
+
+    def aliases(self, d):
+        """the constructor aliases of the Kombination d: a Kombination literal is a call with one argument per listed field"""
+        out = {}
+        ft = {f[1]: f[2] for f in reversed(d[4])}
+        for a in self.mod:
+            if a[0] == "ialias" and a[2] == d[2] and all(f in ft for f in a[3]) and a[1] not in out:
+                out[a[1]] = ([(ft[f], False) for f in a[3]], ["S", d[2]])
+        return out
 
     def lookup(self, G, x):
         for sc in G:
@@ -598,12 +611,12 @@ class Spec:
         imp = p[2]
         pub = {}
         for d in self.mod:
-            if d[1] == 1 and d[2] not in pub:
+            if d[0] != "ialias" and d[1] == 1 and d[2] not in pub:
                 pub[d[2]] = d
         if imp[0] == "none":
             ds = []
         elif imp[0] == "all":
-            ds = [d for d in self.mod if d[1] == 1]
+            ds = [d for d in self.mod if d[0] != "ialias" and d[1] == 1]
             if len({d[2] for d in ds}) != len(ds):
                 return False
         else:
@@ -618,6 +631,8 @@ class Spec:
             G[0][d[2]] = (kind, d[3] if kind in ("var", "const") else None)
             if d[0] == "ifun":
                 F[d[2]] = ([(q[0], q[1] == 1) for q in d[3]], None if d[4] == "none" else d[4])
+            if d[0] == "istruct":
+                F.update(self.aliases(d))
         for t in p[3][1:]:
             if t[0] == "stmt":
                 if not self.stmt(F, G, 0, "global", t[1]):
@@ -651,9 +666,11 @@ class Gen:
     def module(self):
         r = self.rng
         g1 = r.choice(["der", "die", "das"])
-        mod = [["istruct", 1, 1, g1, [[1, 2, "Z"], [0, 3, "Z"], [1, 4, "T"], [0, 5, "T"]]]]
+        mod = [["istruct", 1, 1, g1, [[1, 2, "Z"], [0, 3, "Z"], [1, 4, "T"], [0, 5, "T"]]],
+               ["ialias", 40, 1, [2, 4]], ["ialias", 41, 1, [2, 3, 4, 5]], ["ialias", 42, 1, [4]]]
         if r.random() < 0.5:
             mod.append(["istruct", 0, 6, r.choice(["der", "die", "das"]), [[1, 7, "Z"]]])
+            mod.append(["ialias", 43, 6, [7]])
             mod.append(["ivar", 0, 8, ["S", 6]])
         mod += [["ivar", 1, 10, ["S", 1]], ["ivar", 1, 11, "Z"], ["ivar", 1, 12, "T"], ["ivar", 1, 13, ["L", "Z"]],
                 ["ivar", 0, 14, "Z"], ["ivar", 0, 15, "T"], ["ivar", 1, 16, "K"],
@@ -662,7 +679,7 @@ class Gen:
                 ["ifun", 1, 33, [["T", 0]], "none"], ["ifun", 0, 34, [["Z", 0]], "Z"], ["ifun", 0, 35, [], "none"],
                 ["ifun", 1, 36, [["K", 0], ["T", 1]], "W"], ["ifun", 1, 37, [], "none"]]
         # drop a few optional declarations
-        keep = [d for d in mod if d[0] == "istruct" or d[2] in (10, 8) or r.random() < 0.85]
+        keep = [d for d in mod if d[0] in ("istruct", "ialias") or d[2] in (10, 8) or r.random() < 0.85]
         return keep
 
     # ---- environment helpers ---------------------------------------------------------------
@@ -710,8 +727,13 @@ class Gen:
                     cands += ["cattext", "slice1", "slice3"]
             elif is_list(t):
                 cands += ["cast", "idx", "listlit", "listlit", "catlist", "catlist", "slice1", "slice3"]
+        if is_struct(t) and depth > 0:
+            cands += ["call", "call"]
         if not cands:
             if is_struct(t):
+                fs = [f for f, (ps, rt) in F.items() if rt == t]
+                if fs:
+                    return self.mk(F, G, t, 1, "call")
                 return None
             cands = ["lit"] if haslit(t) else (["cast"] if t == "B" else ["empty"])
         for _ in range(8):
@@ -856,6 +878,9 @@ class Gen:
     def s_var(self, F, G):
         r = self.rng
         t = r.choice(["Z", "Z", "K", "B", "W", "C", "T", "T", ["L", "Z"], ["L", "T"]])
+        structs = [f_rt for f_rt in {tuple(rt) for (_, rt) in F.values() if is_struct(rt)} if self.spec.lookup(G, f_rt[1]) == ("struct", None)]
+        if structs and r.random() < 0.12:
+            t = list(r.choice(sorted(structs)))
         x = self.decl_name(G, t)
         old = self.spec.lookup(G, x)
         # the initialiser is outside the scope of x: it may use an outer x, also of another type
@@ -993,7 +1018,7 @@ class Gen:
         self.used = {}
         self.keep = []
         self.hide = None
-        pub = [d for d in mod if d[1] == 1]
+        pub = [d for d in mod if d[0] != "ialias" and d[1] == 1]
         if r.random() < 0.6:
             imp = ["all"]
             ds = pub
@@ -1010,6 +1035,8 @@ class Gen:
             G[0][d[2]] = (kind, d[3] if kind in ("var", "const") else None)
             if d[0] == "ifun":
                 F[d[2]] = ([(q[0], q[1] == 1) for q in d[3]], None if d[4] == "none" else d[4])
+            if d[0] == "istruct":
+                F.update(self.spec.aliases(d))
         tops = ["tops"]
         # a few globals first so that functions and Referenz arguments have something to work with
         for _ in range(r.randint(2, 5)):
@@ -1033,6 +1060,19 @@ class Gen:
         F[fr] = ([("Z", True)], "Z")
         if 31 in F:
             tops.append(["stmt", ["scall", 31, ["var", gz]]])
+        # ... a list, an indexed assignment, the three further loop forms, a list literal, verkettet, a slice, and
+        # (when the Kombination is imported) a Kombination literal and a field assignment
+        gl, ge, gs = self.fresh(), self.fresh(), self.fresh()
+        G[0][gl] = ("var", ["L", "Z"])
+        tops += [["stmt", ["svar", "die", ["L", "Z"], gl, ["list", ["var", gz], ["lit", "lz"]]]],
+                 ["stmt", ["assignidx", gl, ["lit", "lz"], ["var", kz]]],
+                 ["stmt", ["foreach", "die", "Z", ge, ["bin", "cat", ["var", gl], ["var", gz]], ["blk", ["assign", gz, ["var", ge]]]]],
+                 ["stmt", ["repeat", ["blk", ["assign", gz, ["un", "len", ["slice", ["var", gl], ["lit", "lz"], ["var", gz]]]]], ["var", kz]]],
+                 ["stmt", ["dowhile", ["blk", ["assignidx", gl, ["var", gz], ["lit", "lz"]]], ["bin", "lt", ["var", gz], ["lit", "lz"]]]]]
+        if 40 in F and self.spec.lookup(G, 1) == ("struct", None):
+            G[0][gs] = ("var", ["S", 1])
+            tops += [["stmt", ["svar", self.spec.gender(["S", 1]), ["S", 1], gs, ["call", 40, ["var", gz], ["lit", "lt"]]]],
+                     ["stmt", ["assignfield", 2, gs, ["var", kz]]]]
         for _ in range(r.randint(3, 9)):
             if r.random() < 0.3:
                 f, sig = self.function(F, G)
@@ -1095,16 +1135,17 @@ def run_model(model, lines):
     return p.stdout.splitlines()
 
 
-QUIRKS = ["void_eq", "void_ret", "tc_by_name", "field_unimported"]
-CURRENT = "0000"     # the setting MiniCheck.current: all four defects repaired (ec4b99d, 328cc02, 4309fac, 581329c)
+QUIRKS = ["void_eq", "void_ret", "tc_by_name", "field_unimported", "field_name_lookup"]
+CURRENT = "00001"    # the setting MiniCheck.current: the four unsoundness defects repaired (ec4b99d, 328cc02, 4309fac, 581329c),
+                     # the field-name lookup of assigneable() (a false rejection) still there
 
 
 def flag_combos():
     import itertools
     out = []
     for k in (1, 2, 3, 4):
-        for combo in itertools.combinations(range(4), k):
-            out.append((combo, "".join("1" if i in combo else "0" for i in range(4))))
+        for combo in itertools.combinations(range(4), k):      # the fifth switch only adds diagnostics
+            out.append((combo, "".join("1" if i in combo else "0" for i in range(4)) + "1"))
     return out
 
 
@@ -1333,7 +1374,7 @@ def main():
         ck.broken_obligation("extracted model driver extract/_build/c04 missing (make -C /verif setup)", "")
         ck.finish()
     scratch = vlib.scratch()
-    nprog = 5 if ck.quick else 36
+    nprog = 4 if ck.quick else 36
     t0 = time.time()
 
     # ---- 1. corpus of past / hand-written cases first ----------------------------------------
@@ -1368,7 +1409,7 @@ def main():
     seeds = [ck.rng.getrandbits(48) for _ in range(nprog)]
     gstats = {}
     with ProcessPoolExecutor(max_workers=vlib.NCPU) as ex:
-        gens = list(ex.map(work_gen, [(i, seeds[i], model, scratch, 300 if ck.quick else 0) for i in range(nprog)]))
+        gens = list(ex.map(work_gen, [(i, seeds[i], model, scratch, 250 if ck.quick else 0) for i in range(nprog)]))
         log("[c04] %d base programs, %d mutants from the Coq injector in %.0fs" % (nprog, sum(len(g[3]) - 1 for g in gens), time.time() - t0))
         chunks = []
         for idx, mod, mdir, raw, st in gens:
@@ -1483,15 +1524,15 @@ def main():
     variant = CURRENT
     if mismatch:
         probe = [it for it in results if it["ast"] is not None and ((it["patched"] != "?" and (it["check"] == "-") != (it["patched"] == "-")) or it in mismatch)]
-        settings = ["".join("1" if (k >> i) & 1 else "0" for i in range(4)) for k in range(15, -1, -1)]
+        settings = [CURRENT, "00000"] + ["".join("1" if (k >> i) & 1 else "0" for i in range(5)) for k in range(31, -1, -1)]
         out = run_model(model, ["Q %s %s" % (fl, sx(it["ast"])) for it in probe for fl in settings])
         ok = []
         for j, fl in enumerate(settings):
-            if all((out[i * 16 + j].split()[2] == "-") == it["acc"] for i, it in enumerate(probe)) and all(m["ast"] is not None for m in mismatch):
+            if all((out[i * len(settings) + j].split()[2] == "-") == it["acc"] for i, it in enumerate(probe)) and all(m["ast"] is not None for m in mismatch):
                 ok.append(fl)
         if ok:
             variant = ok[0]
-            log("[c04] the frontend does not behave as the current model (MiniCheck.current); it agrees with check_with(void_eq,void_ret,tc_by_name,field_unimported = %s) on all %d programs" % (variant, len(results)))
+            log("[c04] the frontend does not behave as the current model (MiniCheck.current); it agrees with check_with(void_eq,void_ret,tc_by_name,field_unimported,field_name_lookup = %s) on all %d programs" % (variant, len(results)))
             mismatch = []
         else:
             it = mismatch[0]
@@ -1552,7 +1593,7 @@ def main():
         model_variant_matching_the_frontend=dict(zip(QUIRKS, variant)), programs_with_a_list_of_nothing_not_compared_with_the_model=void_list_tolerated,
         kddp=kres, operator_grid=dict(cells=n_grid, **grid_stats),
         exhaustive="operator grid: every unary/binary operator and cast of the core x 10 operand kinds (6 primitive types, 2 list types, Kombination, call without result)%s" % ("" if ck.quick else " x 8 declared result types"),
-        exhaustive_note="thorough: ALL single-fault mutants (20 classes, every site the injector of coq/Lang/MiniMutate.v finds) of every generated base program are run; quick: at most 300 per class and program, sampled; base programs are random",
+        exhaustive_note="thorough: ALL single-fault mutants (20 classes, every site the injector of coq/Lang/MiniMutate.v finds) of every generated base program are run; quick: at most 250 per class and program, sampled; base programs are random",
         rule="evaluations = programs parsed by the real frontend (+ kddp runs); non-trivial = a mutant whose first error is reported after line 2 "
              "(the frontend accepted a non-empty prefix), distinct by source text",
         generated_constructs=gstats,
